@@ -182,42 +182,61 @@ Qed.
 
 (* ------------------------------------------------------------------ main theorem *)
 
+Lemma find_all_empty : forall img k, tab_at img (H k mod 256) = [] -> find_all H img k = Ok [].
+Proof.
+  intros img k Ht. unfold find_all. cbn [next_all].
+  replace (find H img k (find_start ctx0)) with (Eof, mkCtx 0 0 0 (H k mod 256) 0); auto.
+  unfold find. cbn [c_loop find_start ctx0 c_khash c_kpos]. rewrite N.eqb_refl. rewrite Ht.
+  reflexivity.
+Qed.
+
+Lemma tables_of_write : forall kvs img, fits32 kvs -> write H kvs = Ok img ->
+  irecs img = recs_from header_size kvs /\
+  forall i, i < 256 ->
+    let es := filter (in_table i) (map (entry_of H) (recs_from header_size kvs)) in
+    (es = [] /\ tab_at img i = []) \/ (es <> [] /\ Inv (2 * length es) (tab_at img i) es).
+Proof.
+  intros kvs img Hf Hw.
+  destruct (ents_facts kvs Hf) as [Hnd [H1 [H2 H3]]].
+  unfold write in Hw.
+  destruct (build_tables_spec _ H1 H2 H3 table_ids (end_from header_size kvs)) as [tabs [Ht [Hl Hs]]].
+  rewrite Ht in Hw. cbn [rbind] in Hw. inversion Hw; subst img. clear Hw.
+  split; auto. intros i Hi.
+  assert (Hlen : length table_ids = 256%nat) by (unfold table_ids; rewrite map_length, seq_length; auto).
+  specialize (Hs (N.to_nat i)). rewrite Hlen in Hs. specialize (Hs ltac:(lia)).
+  cbv zeta in Hs. rewrite nth_table_ids in Hs by lia. rewrite N2Nat.id in Hs.
+  exact Hs.
+Qed.
+
 Theorem lookup_exact : forall kvs img k, fits32 kvs -> write H kvs = Ok img ->
   find_all H img k = Ok (spec_vals kvs k).
 Proof.
   intros kvs img k Hf Hw.
   destruct (ents_facts kvs Hf) as [Hnd [H1 [H2 H3]]].
-  unfold write in Hw.
-  set (recs := recs_from header_size kvs) in *.
-  set (ents := map (entry_of H) recs) in *.
-  destruct (build_tables_spec ents H1 H2 H3 table_ids (end_from header_size kvs)) as [tabs [Ht [Hl Hs]]].
-  rewrite Ht in Hw. simpl in Hw. inversion Hw; subst img. clear Hw.
-  set (img := mkImage recs tabs).
-  set (i := H k mod 256).
-  assert (Hi : i < 256) by (apply N.mod_lt; lia).
-  assert (Hlen : length table_ids = 256%nat) by (unfold table_ids; rewrite map_length, seq_length; auto).
-  specialize (Hs (N.to_nat i) ltac:(lia)).
-  cbv zeta in Hs. rewrite nth_table_ids in Hs by lia. rewrite N2Nat.id in Hs.
-  change (snd (nth (N.to_nat i) tabs (0, []))) with (tab_at img i) in Hs.
-  rewrite <- (values_eq kvs k Hf tabs). fold recs. fold ents. fold img. fold i.
-  unfold find_all.
-  destruct Hs as [[He Ht0]|[Hne HI]].
-  - rewrite He. simpl map.
-    cbn [next_all]. unfold find. simpl c_loop. simpl N.eqb. cbv iota.
-    fold i. rewrite Ht0. simpl. auto.
-  - set (es := filter (in_table i) ents) in *.
+  destruct (tables_of_write kvs img Hf Hw) as [Hrecs Htab].
+  assert (Hi : H k mod 256 < 256) by (apply N.mod_lt; lia).
+  specialize (Htab _ Hi). cbv zeta in Htab.
+  pose proof (values_eq kvs k Hf (itabs img)) as Hv. cbv zeta in Hv.
+  rewrite <- Hrecs in *.
+  assert (Himg : mkImage (irecs img) (itabs img) = img) by (destruct img; auto).
+  rewrite Himg in Hv. rewrite <- Hv.
+  destruct Htab as [[He Ht0]|[Hne HI]].
+  - rewrite He. apply find_all_empty. auto.
+  - set (es := filter (in_table (H k mod 256)) (map (entry_of H) (irecs img))) in *.
     assert (Hpos : (0 < 2 * length es)%nat) by (destruct es; simpl; try congruence; lia).
+    assert (Hle : (length es <= length (irecs img))%nat).
+    { unfold es. pose proof (filter_length_le (in_table (H k mod 256)) (map (entry_of H) (irecs img))) as Hq.
+      rewrite map_length in Hq. exact Hq. }
     assert (H32 : N.of_nat (2 * length es) < 4294967296).
-    { pose proof (filter_length_le (in_table i) ents). fold es in H0. unfold nlen in H3. lia. }
-    apply (find_all_table H img k (tab_at img i) es (2 * length es) Hpos H32 eq_refl HI).
+    { unfold nlen in H3. rewrite map_length in H3. lia. }
+    unfold find_all.
+    apply (find_all_table H img k (tab_at img (H k mod 256)) es (2 * length es) Hpos H32 eq_refl HI).
     + rewrite Forall_forall in *. intros x Hx. apply filter_In in Hx. apply H1. tauto.
     + intros e He. apply filter_In in He. destruct He as [He _].
       apply in_map_iff in He. destruct He as [r [<- Hr]].
       exists (snd r). simpl. apply rec_at_in; auto.
     + reflexivity.
-    + simpl. pose proof (filter_length_le (mt H img k) es).
-      pose proof (filter_length_le (in_table i) ents). fold es in H4.
-      unfold ents in H4. rewrite map_length in H4. lia.
+    + pose proof (filter_length_le (mt H img k) es). lia.
 Qed.
 
 End Main.
